@@ -203,6 +203,10 @@ def run(pid, tier, seed):
                 chk.fail("equal-code-objects", {"first": first, "second": second, "answers": [r1, r2],
                                                 "detail": "identical functions from two files share one cached answer"})
             chk.nontriv("twin|%s" % first)
+        # the same twins executed under ONE tracer (one trace_calls block), both orders of first execution, with a custom
+        # file-name filter and with the default filter under an allow-list: the verdict belongs to the file, not to the
+        # (equal) code object
+        twin_under_one_tracer(chk, work, mtconfig)
         for g, (case, got) in zip(drv.ask_many(reqs), meta):
             chk.rel("corr.C17.defaultFilter", (g == "true") == got, dict(case, impl=got, model=g))
 
@@ -283,6 +287,72 @@ def run(pid, tier, seed):
         shutil.rmtree(work, ignore_errors=True)
         drv.close()
     return chk.finish(proof, None)
+
+
+TWIN_SRC = ("def twin(x):\n    return x\n\n\nclass TK:\n    def tm(self, y):\n        return [y]\n\n\n"
+            "def gen(n):\n    for i in range(n):\n        yield i\n")
+
+
+def twin_under_one_tracer(chk, work, mtconfig):
+    from monkeytype.tracing import CallTraceLogger, trace_calls
+
+    class Collect(CallTraceLogger):
+        def __init__(self):
+            self.traces = []
+
+        def log(self, trace):
+            self.traces.append(trace)
+
+    mods = {}
+    for d in ("adm", "rej"):
+        os.makedirs(os.path.join(work, "twins", d), exist_ok=True)
+        path = os.path.join(work, "twins", d, "zz_mtv_twinmod.py")
+        with open(path, "w") as f:
+            f.write(TWIN_SRC)
+        name = "mtv_c17_twin_%s_%d" % (d, os.getpid())
+        spec = importlib.util.spec_from_file_location(name, path)
+        m = importlib.util.module_from_spec(spec)
+        sys.modules[name] = m
+        spec.loader.exec_module(m)
+        mods[d] = (m, path)
+    try:
+        def use(m, v):
+            m.twin(v)
+            m.TK().tm(v)
+            list(m.gen(2))
+
+        adm_path = mods["adm"][1]
+        filters = [("custom-by-file", lambda code: code.co_filename == adm_path, None),
+                   ("default+allow-list", mtconfig.default_code_filter, "adm"),
+                   ("custom-reject-all-but-one-file-method", lambda code: code.co_filename == adm_path and code.co_name == "tm", None)]
+        for fname, flt, allow in filters:
+            for order in (("adm", "rej"), ("rej", "adm"), ("rej", "adm", "rej", "adm")):
+                if allow is None:
+                    os.environ.pop("MONKEYTYPE_TRACE_MODULES", None)
+                else:
+                    os.environ["MONKEYTYPE_TRACE_MODULES"] = allow
+                mtconfig.default_code_filter.cache_clear()
+                logger = Collect()
+                with trace_calls(logger, 0, code_filter=flt):
+                    for k, d in enumerate(order):
+                        use(mods[d][0], "s" if d == "adm" else k)
+                chk.evaluations += 1
+                got = sorted((t.func.__module__, t.func.__qualname__, sorted((a, getattr(ty, "__name__", repr(ty))) for a, ty in t.arg_types.items() if a != "self"))
+                             for t in logger.traces)
+                n_adm = sum(1 for d in order if d == "adm")
+                names = ["TK.tm"] if "method" in fname else ["TK.tm", "gen", "twin"]
+                argn = {"TK.tm": "y", "gen": "n", "twin": "x"}
+                want = sorted((mods["adm"][0].__name__, q, [(argn[q], "int" if q == "gen" else "str")]) for q in names for _ in range(n_adm))
+                if got != want:
+                    chk.fail("equal-code-objects-one-tracer",
+                             {"filter": fname, "order": list(order), "logged": got[:8], "expected": want[:8],
+                              "detail": "identical functions in an admitted and a rejected file, run under one tracer: the logged calls must be "
+                                        "exactly the admitted file's"})
+                chk.nontriv("twin-tracer|%s|%s" % (fname, "".join(o[0] for o in order)))
+        os.environ.pop("MONKEYTYPE_TRACE_MODULES", None)
+    finally:
+        for m, _ in mods.values():
+            sys.modules.pop(m.__name__, None)
 
 
 def code_qual(rec_qual, mod):
